@@ -10,7 +10,7 @@ use stun_rs::{AddressFamily, Algorithm, AlgorithmId, HMACKey, StunAttribute};
 
 pub const COOKIE: [u8; 4] = [0x21, 0x12, 0xA4, 0x42];
 
-#[derive(Clone, Debug, PartialEq, Eq, Hash, PartialOrd, Ord)]
+#[derive(Clone, Debug, PartialEq, Eq, Hash, PartialOrd, Ord, serde::Serialize, serde::Deserialize)]
 pub enum Addr {
     V4([u8; 4], u16),
     V6([u8; 16], u16),
@@ -32,7 +32,7 @@ impl Addr {
 }
 
 /// Logical attribute value (plain data).
-#[derive(Clone, Debug, PartialEq, Eq, Hash, PartialOrd, Ord)]
+#[derive(Clone, Debug, PartialEq, Eq, Hash, PartialOrd, Ord, serde::Serialize, serde::Deserialize)]
 pub enum L {
     MappedAddress(Addr),
     AlternateServer(Addr),
